@@ -12,17 +12,6 @@ def depth : S → Depth
   | .SEMICOLON_X => .atLeast 2
   | .NUMBER_X => .atLeast 3
 
-/-- effect of an action on the parameter stack: pops needed, then what it does -/
-inductive Eff | keep | push | build | pop (n : Nat) | reset deriving DecidableEq, Repr
-
-def eff : A → Eff
-  | .DoStartNumber => .push
-  | .DoBuildNumber => .build
-  | .DoBack | .DoDown | .DoForward | .DoUp | .DoErase | .DoEraseLine | .DoMode => .pop 1
-  | .DoHome | .DoScrollRegion => .pop 2
-  | .DoLog | .do_sgr | .do_decsca | .do_modecrap => .reset
-  | _ => .keep
-
 def isDigit (c : Nat) : Bool := 48 ≤ c && c ≤ 57
 
 /-- does running an action with effect `e` from a state with contract `d` land inside contract `d'`? -/
